@@ -25,9 +25,16 @@ type state struct {
 	cancel2 context.CancelFunc
 	flushed chan error
 	closed  bool
+	noAck   bool // acks=0: the broker never answers a Produce, so no answer is fabricated either
 }
 
 func produceFaults(x *netctl.Exec, dir string, key int16, c *netctl.Conn) []string {
+	if st, ok := x.Data.(*state); ok && st.noAck && key == 0 {
+		if dir == "req" {
+			return []string{"killbefore"}
+		}
+		return nil
+	}
 	switch {
 	case key == 0 && dir == "req":
 		return []string{"killbefore", "err:6", "err:3", "err:10", "errafter:7", "stall"}
